@@ -386,9 +386,11 @@ impl MultiState {
     }
 
     pub(crate) fn suspend<F: FnOnce() -> R, R>(&mut self, f: F, now: Instant) -> R {
-        self.clear(now).unwrap();
+        // A failing terminal must not panic here (and poison the lock shared by all bars):
+        // ignore draw errors, like `ProgressBar::suspend` does for a single bar.
+        let _ = self.clear(now);
         let ret = f();
-        self.draw(true, None, Instant::now()).unwrap();
+        let _ = self.draw(true, None, Instant::now());
         ret
     }
 
